@@ -1,26 +1,35 @@
 // correspondence driver for gmlc/concurrency/DelayedObjects.hpp  (model: coq/Model/DelayedObjectsModel.v)
 //
-// X = harness payload {long v}: its copy constructor calls vs::user_call(v) (K_CALL v, throw plan), moves are silent.
-// cfg: <nslots> <k>...     number of future slots per client thread; global indices of the copies that throw
-// ops: 0 kind key slot     slot = getFuture(key).share()        kind 0: int key, else string key "n<key>"
+// cfg: <nslots> <variant> <k>...   future slots per client thread; instantiation; global indices of the copies that throw
+//   variant 0: X = harness payload {long v}: its copy constructor calls vs::user_call(v) (K_CALL v, throw plan);
+//              moving it is silent and leaves the source with the value MOVED (-7777)
+//   variant 1: X = long (scalar: default-initialisation is NOT value-initialisation).  Programs of this variant
+//              contain no const X& setter and no fulfillAllPromises (the model would expect their copies).
+// ops: 0 kind key slot     slot = getFuture(key).share()        kind 0: int key, else string key "n%09d"
 //      1 kind key v        setDelayedValue(key, const X&)
 //      2 kind key v        setDelayedValue(key, X&&)
-//      3 v                 fulfillAllPromises(v)
+//      3 v                 fulfillAllPromises(X(v))   - an rvalue argument, as callers write it
 //      4 kind key          isRecognized      5 kind key  isCompleted      6 kind key  finishedWithValue
 //      7 slot              client: slot.wait_for(0s) == ready  (1/0; -2 empty slot)
 //      8 slot              client: slot.get() if ready (value; -1 not ready; -2 empty slot; -3 broken_promise)
-// A std::future_error escaping a library call is logged as K_FAULT and returns -99; a vs::VThrow (throwing
-// copy) is caught by the runner: K_CATCH.
-// final(): sizes of the four maps, then the container is destroyed on the driver thread
-// (the client threads are done or parked between two critical sections), then one line per held future.
+// A std::future_error escaping a library call is logged as K_FAULT 0 1 and returns -99; a vs::VThrow (throwing
+// copy) is caught by the runner: K_CATCH.  std::promise is wrapped (delayedobjects_extra.hpp): touching a promise
+// that lives inside the container without owning promiseLock is logged as K_FAULT 0 7.
+// final(): sizes of the four maps and the number of copies made; then, unless a pending map holds a moved-from
+// promise (`998 n`), the container is destroyed on the driver thread; then one line per held future.
+// Built with -ftrivial-auto-var-init=pattern (lib/comp_delayedobjects.py): an uninitialised automatic has a
+// fixed non-zero pattern instead of whatever is on the stack.
 #include "vstd.hpp"
 #include "vpay.hpp"
+#include "delayedobjects_extra.hpp"
 #define std vstd
-#define private public  // harness-side only: lets final() read the maps without an event
+#define private public  // harness-side only: lets final() and the lockset hook read the maps without an event
 #include "gmlc/concurrency/DelayedObjects.hpp"
 #undef private
 #undef std
 #include "driver.hpp"
+
+constexpr long MOVED = -7777;
 
 // the payload: copying it is user code (a scheduling point inside the critical section, K_CALL v, and a
 // throw point driven by the case's throw plan); moving it is silent
@@ -29,27 +38,42 @@ struct X {
     X() = default;
     explicit X(long x): v(x) {}
     X(const X& o): v(o.v) { vs::user_call(o.v); }
-    X(X&& o) noexcept: v(o.v) {}
+    X(X&& o) noexcept: v(o.v) { o.v = MOVED; }
     X& operator=(const X&) = delete;
     X& operator=(X&& o) noexcept
     {
         v = o.v;
+        o.v = MOVED;
         return *this;
     }
 };
+inline X mk(long v, const X*) { return X(v); }
+inline long mk(long v, const long*) { return v; }
+inline long val(const X& x) { return x.v; }
+inline long val(long x) { return x; }
 
-struct DelayedObjectsComp {
-    using DO = gmlc::concurrency::DelayedObjects<X>;
+template<class XT>
+struct Core {
+    using DO = gmlc::concurrency::DelayedObjects<XT>;
     std::unique_ptr<DO> cont;
     size_t nslots;
-    std::vector<std::vector<std::shared_future<X>>> slots;
+    std::vector<std::vector<std::shared_future<XT>>> slots;
 
-    explicit DelayedObjectsComp(const vs::Case& c):
-        cont(new DO()), nslots(c.cfg.empty() ? 0 : (size_t)c.cfg[0]), slots(c.progs.size())
+    Core(size_t ns, size_t nthreads): cont(new DO()), nslots(ns), slots(nthreads)
     {
         for (auto& s : slots) s.resize(nslots);
-        vs::plan().reset(c.cfg.size() > 1 ? std::vector<long>(c.cfg.begin() + 1, c.cfg.end()) : std::vector<long>{});
+        // lockset check for promises that live inside the container
+        vs::promise_hook() = [this](const void* p) {
+            if (!cont) return;
+            bool inside = false;
+            for (auto& e : cont->promiseByInteger) inside |= ((const void*)&e.second == p);
+            for (auto& e : cont->promiseByString) inside |= ((const void*)&e.second == p);
+            for (auto& e : cont->usedPromiseByInteger) inside |= ((const void*)&e.second == p);
+            for (auto& e : cont->usedPromiseByString) inside |= ((const void*)&e.second == p);
+            if (inside && cont->promiseLock.owner != vs::Sched::self()) vs::S().emit(vs::K_FAULT, nullptr, 7);
+        };
     }
+    ~Core() { vs::promise_hook() = nullptr; }
     // zero-padded: the lexicographic order of the names is the numeric order of the keys (0 <= key < 10^9)
     static std::string name(long key)
     {
@@ -57,13 +81,12 @@ struct DelayedObjectsComp {
         std::snprintf(b, sizeof b, "n%09ld", key);
         return b;
     }
-
-    static long peek_get(std::shared_future<X>& f)
+    static long peek_get(std::shared_future<XT>& f)
     {
         if (!f.valid()) return -2;
         if (f.wait_for(std::chrono::seconds(0)) != std::future_status::ready) return -1;
         try {
-            return f.get().v;  // const X&: no copy
+            return val(f.get());  // const XT&: no copy of the payload
         }
         catch (const std::future_error&) {
             return -3;
@@ -75,27 +98,26 @@ struct DelayedObjectsComp {
         switch (o[0]) {
             case 0: {
                 if (o.size() != 4) break;
-                std::shared_future<X> f =
+                std::shared_future<XT> f =
                     str ? cont->getFuture(name(o[2])).share() : cont->getFuture((int)o[2]).share();
                 if (o[3] >= 0 && (size_t)o[3] < nslots) slots[tid][(size_t)o[3]] = std::move(f);
                 return 0;
             }
             case 1: {
                 if (o.size() != 4) break;
-                const X v(o[3]);
+                const XT v = mk(o[3], (const XT*)nullptr);
                 if (str) cont->setDelayedValue(name(o[2]), v); else cont->setDelayedValue((int)o[2], v);
                 return 0;
             }
             case 2: {
                 if (o.size() != 4) break;
-                X v(o[3]);
+                XT v = mk(o[3], (const XT*)nullptr);
                 if (str) cont->setDelayedValue(name(o[2]), std::move(v)); else cont->setDelayedValue((int)o[2], std::move(v));
                 return 0;
             }
             case 3: {
                 if (o.size() != 2) break;
-                const X v(o[1]);
-                cont->fulfillAllPromises(v);
+                cont->fulfillAllPromises(mk(o[1], (const XT*)nullptr));  // a temporary: binds to const X& in the header
                 return 0;
             }
             case 4:
@@ -123,17 +145,6 @@ struct DelayedObjectsComp {
         }
         return 0;
     }
-    // vs::VThrow (a throwing copy) passes through to the runner (K_CATCH); a std::future_error is a fault
-    long op(int tid, const std::vector<long>& o)
-    {
-        try {
-            return call(tid, o);
-        }
-        catch (const std::future_error&) {
-            vs::S().emit(vs::K_FAULT, nullptr, 1);
-            return -99;
-        }
-    }
     // a moved-from promise has no shared state: get_future() says no_state (a live one: future_already_retrieved)
     template<class M>
     static long count_stale(M& m)
@@ -141,7 +152,7 @@ struct DelayedObjectsComp {
         long n = 0;
         for (auto& e : m) {
             try {
-                (void)e.second.get_future();
+                (void)e.second.real().get_future();
             }
             catch (const std::future_error& ex) {
                 if (ex.code() == std::make_error_code(std::future_errc::no_state)) ++n;
@@ -165,6 +176,34 @@ struct DelayedObjectsComp {
         }
         for (size_t t = 0; t < slots.size(); ++t)
             for (size_t i = 0; i < nslots; ++i) out.push_back({(long)t, (long)i, peek_get(slots[t][i])});
+    }
+};
+
+struct DelayedObjectsComp {
+    std::unique_ptr<Core<X>> pay;
+    std::unique_ptr<Core<long>> scalar;
+
+    explicit DelayedObjectsComp(const vs::Case& c)
+    {
+        const size_t ns = c.cfg.empty() ? 0 : (size_t)c.cfg[0];
+        const long variant = c.cfg.size() > 1 ? c.cfg[1] : 0;
+        if (variant == 1) scalar.reset(new Core<long>(ns, c.progs.size())); else pay.reset(new Core<X>(ns, c.progs.size()));
+        vs::plan().reset(c.cfg.size() > 2 ? std::vector<long>(c.cfg.begin() + 2, c.cfg.end()) : std::vector<long>{});
+    }
+    // vs::VThrow (a throwing copy) passes through to the runner (K_CATCH); a std::future_error is a fault
+    long op(int tid, const std::vector<long>& o)
+    {
+        try {
+            return scalar ? scalar->call(tid, o) : pay->call(tid, o);
+        }
+        catch (const std::future_error&) {
+            vs::S().emit(vs::K_FAULT, nullptr, 1);
+            return -99;
+        }
+    }
+    void final(std::vector<std::vector<long>>& out)
+    {
+        if (scalar) scalar->final(out); else pay->final(out);
     }
 };
 int main(int argc, char** argv) { return vs::drive<DelayedObjectsComp>(argc, argv); }
